@@ -284,7 +284,11 @@ theorem Dep.tables :
       s.setLastAccess .chanRecv pid v = { s with lastRecv := some ⟨pid, v⟩ }) ∧
     (∀ s : ArcSt,
       s.lastDependentAccess .arcInc = s.lastInspect ∧
-      s.lastDependentAccess .arcDec = s.lastDec ∧
+      s.lastDependentAccess .arcDec =
+        (match s.lastDec, s.lastInspect with
+         | some d, some i => if i.pathId > d.pathId then some i else some d
+         | some d, none => some d
+         | none, i => i) ∧
       s.lastDependentAccess .arcInspect =
         (match s.lastMod with
          | some .inc => s.lastInc
@@ -315,7 +319,8 @@ theorem Dep.invisible_def (x y : Action) :
 
 /-- `Dep.independent_pairs`: an earlier access `x` is invisible to a later operation `y` on the
 same object exactly for: atomic load/load; channel send/recv (either order); `Arc` inc/inc,
-inc/dec, dec/inc, inspect/inspect, and dec-after-inspect. -/
+inc/dec, dec/inc, inspect/inspect.  (Dec-after-inspect was in this list before the repair of finding
+F10.) -/
 theorem Dep.independent_pairs :
     (∀ x y, x ∈ [Action.atomLoad, .atomStore, .atomRmw] →
       y ∈ [Action.atomLoad, .atomStore, .atomRmw] →
@@ -325,8 +330,7 @@ theorem Dep.independent_pairs :
     (∀ x y, x ∈ [Action.arcInc, .arcDec, .arcInspect] →
       y ∈ [Action.arcInc, .arcDec, .arcInspect] →
       (LoomVerif.Dep.ArcInvisible x y ↔ (x, y) ∈ [(Action.arcInc, Action.arcInc),
-        (.arcInc, .arcDec), (.arcDec, .arcInc), (.arcInspect, .arcDec),
-        (.arcInspect, .arcInspect)])) :=
+        (.arcInc, .arcDec), (.arcDec, .arcInc), (.arcInspect, .arcInspect)])) :=
   LoomVerif.Dep.independent_pairs
 
 /-- (i) Two loads of the same atomic by different threads commute in `Spec/SC`: both orders
@@ -366,11 +370,10 @@ theorem Dep.arcClone_arcDrop_commute {p : Prog} {s : SC.St} {t u hd h2 hd' a n :
       some (n, rel.join ((s.tick u).vc u)) :=
   SC.arcClone_arcDrop_commute htu ht hu ha ha' hne1 hne2 hn h2n
 
-/-- (iv) finding F10: `strong_count` by thread 0 and `drop` by thread 1 on the same `Arc`
-(count 2), both enabled, do NOT commute in `Spec/SC` — the count returned is 2 in one order and
-1 in the other — yet loom never orders a later `RefDec` after an earlier `Inspect`.
-(`progF10 = T0: acount 0 | T1: adrop 1`.) -/
-theorem Dep.arc_inspect_dec_not_independent :
+/-- (iv) finding F10, reference side: `strong_count` by thread 0 and `drop` by thread 1 on the same
+`Arc` (count 2), both enabled, do NOT commute in `Spec/SC` — the count returned is 2 in one order and
+1 in the other.  (`progF10 = T0: acount 0 | T1: adrop 1`.) -/
+theorem Dep.arc_inspect_dec_not_commute :
     SC.NextOp LoomVerif.Dep.progF10 LoomVerif.Dep.stF10 0 (.arcCount 0) ∧
     SC.NextOp LoomVerif.Dep.progF10 LoomVerif.Dep.stF10 1 (.arcDrop 1) ∧
     SC.arcOf LoomVerif.Dep.stF10 0 = some 0 ∧ SC.arcOf LoomVerif.Dep.stF10 1 = some 0 ∧
@@ -381,9 +384,53 @@ theorem Dep.arc_inspect_dec_not_independent :
       = [[(0, .val 2)]] ∧
     ((SC.step LoomVerif.Dep.progF10 LoomVerif.Dep.stF10 1).flatMap
         (fun s => SC.step LoomVerif.Dep.progF10 s 0)).map (fun s => (s.th 0).rets)
-      = [[(0, .val 1)]] ∧
-    LoomVerif.Dep.ArcInvisible .arcInspect .arcDec :=
-  LoomVerif.Dep.arc_inspect_dec_not_independent
+      = [[(0, .val 1)]] :=
+  LoomVerif.Dep.arc_inspect_dec_not_commute
+
+/-- (iv) finding F10, twin side (repaired): if an inspection is recorded and is later in the path than
+the last decrement (if any), `last_dependent_access(RefDec)` returns it — so a `RefDec` is ordered
+after an earlier `Inspect`; in particular directly after the inspection was recorded; and an earlier
+`Inspect` is not invisible to a later `RefDec`. -/
+theorem Dep.arcDec_depends_on_inspect :
+    (∀ (s : ArcSt) (i : Access), s.lastInspect = some i →
+      (∀ d, s.lastDec = some d → d.pathId < i.pathId) →
+      s.lastDependentAccess .arcDec = some i) ∧
+    (∀ (s : ArcSt) pid v, (∀ d, s.lastDec = some d → d.pathId < pid) →
+      (s.setLastAccess .arcInspect pid v).lastDependentAccess .arcDec = some ⟨pid, v⟩) ∧
+    ¬ LoomVerif.Dep.ArcInvisible .arcInspect .arcDec :=
+  ⟨LoomVerif.Dep.arcDec_depends_on_inspect, LoomVerif.Dep.arcDec_after_inspect,
+   LoomVerif.Dep.arc_inspect_dec_dependent⟩
+
+/-- … and the other cases: a decrement that is not earlier than the recorded inspection (or no
+inspection) is what `last_dependent_access(RefDec)` returns; with neither recorded, nothing. -/
+theorem Dep.arcDec_consults (s : ArcSt) :
+    (∀ i, s.lastInspect = some i → (∀ d, s.lastDec = some d → d.pathId < i.pathId) →
+      s.lastDependentAccess .arcDec = some i) ∧
+    (∀ d, s.lastDec = some d → (∀ i, s.lastInspect = some i → i.pathId ≤ d.pathId) →
+      s.lastDependentAccess .arcDec = some d) ∧
+    (s.lastInspect = none → s.lastDec = none → s.lastDependentAccess .arcDec = none) :=
+  LoomVerif.Dep.arcDec_consults s
+
+/-- remainder of finding F10: ONE inspection slot.  `set_last_access(Inspect)` overwrites the previous
+inspection, so after `inspect(a); inspect(b)` a decrement (later than `b`) is compared with `b` only.
+Witness: inspections `a` (thread 1) and `b` (thread 2) with concurrent clocks, then a decrement whose
+DPOR clock has seen `b` but not `a`: the access returned happens-before it — no backtrack point —
+although the decrement races with inspection `a`. -/
+theorem Dep.arc_single_inspect_slot :
+    (∀ (s : ArcSt) pa va pb vb,
+      (s.setLastAccess .arcInspect pa va).setLastAccess .arcInspect pb vb
+        = s.setLastAccess .arcInspect pb vb) ∧
+    (∀ (s : ArcSt) pa va pb vb, (∀ d, s.lastDec = some d → d.pathId < pb) →
+      ((s.setLastAccess .arcInspect pa va).setLastAccess .arcInspect pb vb).lastDependentAccess .arcDec
+        = some ⟨pb, vb⟩) ∧
+    (let va := VV.ofList [0, 1, 0, 0, 0]
+     let vb := VV.ofList [0, 0, 1, 0, 0]
+     let dv := VV.ofList [0, 0, 1, 1, 0]
+     let s := (({} : ArcSt).setLastAccess .arcInspect 3 va).setLastAccess .arcInspect 4 vb
+     va.ble vb = false ∧ vb.ble va = false ∧ va.ble dv = false ∧
+     ∃ acc, s.lastDependentAccess .arcDec = some acc ∧ acc.pathId = 4 ∧
+       acc.happensBefore dv = true) :=
+  LoomVerif.Dep.arc_single_inspect_slot
 
 /-- (v) finding F7, twin side: `try_recv` on a channel without messages completes at once with
 `empty`, without a `branch` call: it is not a scheduling point and leaves the execution
